@@ -12,12 +12,15 @@
 (*    before the request is read / after read, before the step /           *)
 (*    after the step, before the reply / reply sent but unread / idle.     *)
 (* Events: a = connect|refused|send|sendbad|recv|drop|eof (child c, x =     *)
-(* request or reply) and accept|read|reject|peof|step|reply|kill|exit.     *)
+(* request or reply) and accept|read|reject|peof|step|reply|kill|exit;     *)
+(* environment: pause (child c silent for a long time), acceptfault.       *)
 (***************************************************************************)
 EXTENDS Handover, Json
 
 CONSTANTS Drops,   \* TRUE: drop at any point; FALSE: a child only closes when idle (all request sequences, no faults)
-          Exits    \* TRUE: the signalled parent may exit while a child is still there
+          Exits,   \* TRUE: the signalled parent may exit while a child is still there
+          Pauses,  \* TRUE: the served child may stay silent for a long time between two requests (event "pause")
+          Faults   \* TRUE: accept may fail transiently while a child is connecting (event "acceptfault")
 
 VARIABLES hist, finished
 gvars == <<vars, hist, finished>>
@@ -49,6 +52,7 @@ GenNext ==
      \/ ParentStep /\ LogP("step", serving, inhand)
      \/ ParentReply /\ Log("reply", serving, Reply(inhand))
      \/ ParentKill /\ LogP("kill", serving, "term")
+     \/ Faults /\ AcceptFault /\ Log("acceptfault", Head(queue), "")
      \/ Exits /\ Quiet /\ (\E c \in Children : ~Ended(c)) /\ ParentExit /\ Log("exit", 0, "")
      \/ \E c \in Children :
           \/ Quiet /\ ChildConnect(c) /\ Log("connect", c, "")
@@ -59,6 +63,7 @@ GenNext ==
           \/ Quiet /\ c = serving /\ ChildSendBad(c) /\ Log("sendbad", c, "")
           \/ Quiet /\ ChildRecv(c) /\ Log("recv", c, Head(p2c[c]))
           \/ Quiet /\ ChildSeesEOF(c) /\ Log("eof", c, "")
+          \/ Pauses /\ Quiet /\ c = serving /\ ChildPause(c) /\ Log("pause", c, "")
           \/ (IF Drops THEN (Quiet \/ c = serving) ELSE (Quiet /\ st[c] = "conn")) /\ ChildDrop(c) /\ Log("drop", c, "")
   /\ UNCHANGED finished
 
